@@ -306,6 +306,9 @@ func runC15(c *an.Ctx) {
 				if constrained != "" && constrained != x {
 					continue // an edge establishes the old status is something else
 				}
+				if an.GuardedAny(fn, st, an.Cmp{L: statusPath, Op: "!=", R: x}) {
+					continue // every way to the store establishes that the old status was not x (e.g. "Leaving or Alive")
+				}
 				// paths that skip the removal must establish old != x
 				neq := an.EdgesWhere(fn, func(f an.Cmp) bool {
 					return f.Op == "!=" && f.R == x && (f.L == statusPath || phiCarries(fn, f.L, statusPath))
@@ -741,7 +744,13 @@ func runC16(c *an.Ctx) {
 				}
 				for _, v := range vals {
 					ok := fresh(v)
-					if par, isPar := v.(*ssa.Parameter); isPar && g != f {
+					if par, isPar := v.(*ssa.Parameter); isPar && an.Transparent(par.Parent()) {
+						// parameter of a new forwarding helper: every call site passes the event it just received
+						ok = true
+						for _, sv := range an.SiteValues(v) {
+							ok = ok && fresh(sv)
+						}
+					} else if isPar && g != f {
 						// closure parameter: every call site passes the event it just received
 						idx := -1
 						for i, q := range g.Params {
